@@ -26,6 +26,26 @@ CLAIMED = {
           "Machine-checked proof of the step facts for all inputs; executable model of tree.py/forest.py reproduces the real trees bit for bit on every run (noise, explicit ids, all parameter sets); the full invariant is evaluated on the real trees by an independent oracle that locates projections by ranges. The lift of the step lemmas to whole insertion histories is not yet a Lean theorem (partial).",
           "Global induction over insertion histories not proved; known finding: tight range in >=2-dim trees includes rows beyond a column's final root range.",
           "DESIGN.md §5 C18"),
+  "C01": ("Lean 4 theorems (filter passes => >= low_threshold distinct entities per id column, for both counter kinds incl. saturation; suppressed leaves emit nothing; safe string values only from singular 1-dim leaves that pass the filter, by induction over the tree; verbatim strings only for safe indices) + bit-exact correspondence of trees, harvest (buckets) and microdata with the executable model + every released range of every real bucket and every verbatim string of real synthetic tables checked against the entities whose own values fall inside it",
+          "Machine-checked proof of the mechanisms that make the floor hold, for all inputs; model of tree/bucket/microdata tied bit for bit; the floor itself is evaluated on every real release (harvest of all 1-3 column combinations, Synthesizer.sample() with rare strings, several id columns, thresholds in unusual order). Provenance of refined buckets is not yet a Lean theorem (partial).",
+          "Partial: refine provenance. Known finding: a rare string at the edge leaf with folded outliers is released verbatim (C01 floor-string-edge-leaf-with-folded-outliers).",
+          "DESIGN.md §5 C01"),
+  "C10": ("Lean 4 theorems (carry-loop rescaling sums to target or target-1 with non-negative counts for every list/target over ordered fields with floor; harvest output positive; microdata emits one row per unit for every RNG stream) + bit-exact correspondence of _adjust_counts, harvest (with refinement and cache aliasing via an explicit cell store) and generate_microdata + totals checked on every real bucket list",
+          "Machine-checked proof of the rescaling kernel and the row-count identity for all inputs; executable model of bucket.py reproduces real bucket lists bit for bit (1-3 columns, refinement, recorded RNG); conservation through the recursion evaluated on every real harvest (partial as a theorem).",
+          "Partial: induction over the stateful harvest. Doubles vs exact arithmetic in the carry loop (oracle covers the real sums).",
+          "DESIGN.md §5 C10"),
+  "C11": ("Lean 4 theorems (uniform draw inside the range, singular exact, null range -> null, affine inverse monotone, rounding within 1/2, string index range and result shape incl. mask = common prefix + '*' + index, common prefix is a prefix) for every RNG state + exact correspondence of generate_microdata cells on real and synthetic bucket lists (all convertor kinds, negative null stand-ins, ranges sharing a lower bound)",
+          "Machine-checked proof for all ranges and RNG states over exact arithmetic; cells of the real generate_microdata compared exactly with the model (incl. Python round(x,p) replica and MinMaxScaler coefficients); property evaluated on every generated cell.",
+          "MinMaxScaler coefficients and Python round semantics trusted, validated by exact cell comparison.",
+          "DESIGN.md §5 C11"),
+  "C12": ("Lean 4 theorems by induction over the stitch recursion for every RNG stream and opaque rows: every result row merges one actual left and one actual right row, left owner preserves the left table as a multiset, patch keeps left rows in order, shared-owner row count within the 0.7 bounds (ordered field) + exact correspondence of build_table steps on labelled synthetic microtables + C12 oracle on build_table and syndiffix.stitch()",
+          "Machine-checked proof of all four clauses for all inputs and shuffles; executable model of stitching.py reproduces real results exactly; oracle on the public stitch() API.",
+          "Termination is a recursion budget in the model (error branch). 0.7 test in doubles vs exact (equivalent below 2^50 rows).",
+          "DESIGN.md §5 C12"),
+  "C13": ("Lean 4 theorems about the executable definitions: the greedy builder yields a well-formed plan from every permutation, matrix, weights, threshold, main column and set iteration order; simplification preserves it; the annealer only handles permutations, so _do_solve/solve return well-formed plans for every RNG stream; <= 4 columns single cluster; ML plan shape + exact correspondence of solve/_do_solve/solve_with_features (annealing replayed in doubles, CPython set order replica) + plan invariant and main-column resolution checked on real plans",
+          "Machine-checked proof of well-formedness/completeness for all inputs; model tied exactly (plans equal incl. annealing trajectory); Synthesizer-level check that a main column given by name or index (0 included) is honoured.",
+          "CPython set iteration order replica validated, not proved (theorems hold for every order). Determinism = the model is a function; checked on the implementation by re-running.",
+          "DESIGN.md §5 C13"),
 }
 NOT_YET = "check not built yet in this work session (model/theorems in progress); see DESIGN.md §5 for the plan"
 
